@@ -749,7 +749,7 @@ def cases(rng, tier):
             spec["items"] = [["r0", dict(k="scalar", v="1")]]
             yield dict(kind="init", mesh=ms, subs=subs, dtype=kind, nvdim=1, vdims=None, dtype_arg=True, spec=spec,
                        spec2=dict(k="scalar", v="0"), bad=dict(k="bad", what="str"), via="update", sub=rng.getrandbits(32))
-    for k in range(260 if quick else 5000):
+    for k in range(600 if quick else 6000):
         yield gen_init(rng, tier)
         if k % 3 == 0:
             yield gen_malformed(rng, tier)
@@ -1271,9 +1271,9 @@ def known(case, text):
     if "accepted by setter: field(nvdim=" in text:
         return "D24"
     kind = case.get("dtype")
-    for key in ("spec", "spec2"):
-        if _sentinel_class(case.get(key), kind):
-            if key == "spec2" and "update_field_values" not in text and "cell" not in text and "specification assigns" not in text:
-                continue
-            return "D21"
+    about_cells = (text.startswith("cell ") or text.startswith("the specification assigns")
+                   or text.startswith("specification of the wrong shape") or text.startswith("Field(value=")
+                   or text.startswith("update_field_values(") or text.startswith("Field.array"))
+    if about_cells and any(_sentinel_class(case.get(key), kind) for key in ("spec", "spec2")):
+        return "D21"
     return None
